@@ -824,6 +824,8 @@ func atomStrD(v ssa.Value, d int) string {
 				n = p[len(p)-1]
 			} else if fv, ok := resolveFree(x.Call.Value).(*ssa.FreeVar); ok {
 				n = fv.Name()
+			} else if pv, ok := resolveVal(x.Call.Value).(*ssa.Parameter); ok {
+				n = "$" + pv.Name()
 			}
 		}
 		var as []string
